@@ -95,6 +95,9 @@ def compares(fn):
             continue
         tt, ff = e
         sym = fn.sym_operand(t["o"])
+        only = _single_reaching_def(fn, t["o"], b)
+        if only is not None:
+            sym = only
         neg = False
         while sym[0] == "un" and sym[1] == "Not":
             sym = sym[2]
@@ -150,7 +153,29 @@ def _single_reaching_def(fn, operand, b):
     ds = [x for x in fn.defs.get(pl["l"], []) if x[2] != "partial"]
     if len(ds) < 2 or any(x[2] == "partial" for x in fn.defs.get(pl["l"], [])):
         return None
-    reaching = [x for x in ds if x[0] == b or b in fn.reachable([x[0]])]
+    # reaching definitions: a definition reaches the switch if some path from it gets there without passing another
+    # definition of the same local (a loop around the whole thing does not make a killed constant reach again)
+    defblocks = {x[0] for x in ds}
+    reaching = []
+    for x in ds:
+        if x[0] == b:
+            reaching.append(x)
+            continue
+        seen, st = set(), list(fn.succ[x[0]])
+        hit = False
+        while st:
+            y = st.pop()
+            if y in seen:
+                continue
+            seen.add(y)
+            if y == b:
+                hit = True
+                break
+            if y in defblocks:
+                continue
+            st.extend(fn.succ[y])
+        if hit:
+            reaching.append(x)
     if len(reaching) != 1 or not fn.dominates(reaching[0][0], b):
         return None
     blk, i, kind, payload = reaching[0]
